@@ -207,8 +207,22 @@ impl<M: Math, A: MassMatrixAdaptStrategy<M>> AdaptStrategy<M> for GlobalStrategy
             if did_change & self.has_initial_mass_matrix {
                 self.has_initial_mass_matrix = false;
                 let position = math.box_array(state.point().position());
-                self.step_size
-                    .init(math, options, hamiltonian, &position, rng)?;
+                match self
+                    .step_size
+                    .init(math, options, hamiltonian, &position, rng)
+                {
+                    Ok(()) => {}
+                    // A recoverable failure of the density at the current position must not end
+                    // the chain: skip the search and continue with the adapted step size.
+                    Err(NutsError::LogpFailure(err))
+                        if err
+                            .downcast_ref::<M::LogpErr>()
+                            .is_some_and(|e| crate::LogpError::is_recoverable(e)) =>
+                    {
+                        self.step_size.update_stepsize(rng, hamiltonian, false)
+                    }
+                    Err(err) => return Err(err),
+                }
             } else {
                 // If the final step size window is empty, this is where warmup ends: the
                 // first post-warmup trajectory must use the averaged step size.
